@@ -85,9 +85,10 @@ func runC12(c *kit.Ctx) {
 				return
 			}
 			// duplicate: comma-ok lookup in map[hrpc.Call]int
-			if ex, ok := iff.Cond.(*ssa.Extract); ok && ex.Index == 1 {
+			ncond, onTrue, onFalse := kit.IfBranches(iff)
+			if ex, ok := ncond.(*ssa.Extract); ok && ex.Index == 1 {
 				if lk, ok := ex.Tuple.(*ssa.Lookup); ok && lk.CommaOk {
-					preds = append(preds, pred{"duplicate", iff, kit.SuccOnTrue(iff)})
+					preds = append(preds, pred{"duplicate", iff, onTrue})
 				}
 			}
 			if cmp, ok := kit.CanonCmp(iff.Cond, true); ok && cmp.Bytes && (cmp.Op == token.EQL || cmp.Op == token.NEQ) {
@@ -103,8 +104,8 @@ func runC12(c *kit.Ctx) {
 					preds = append(preds, pred{"table", iff, rej})
 				}
 			}
-			if call, ok := iff.Cond.(*ssa.Call); ok && kit.CalleeName(call) == kit.M("hrpc", "", "CanBatch") {
-				preds = append(preds, pred{"batchable", iff, kit.SuccOnFalse(iff)})
+			if call, ok := ncond.(*ssa.Call); ok && kit.CalleeName(call) == kit.M("hrpc", "", "CanBatch") {
+				preds = append(preds, pred{"batchable", iff, onFalse})
 			}
 		})
 		seen := map[string]bool{}
